@@ -5,7 +5,9 @@ CONSTANTS
   MaxDepth = 2
   MixKinds = TRUE
   AsmForms = TRUE
-  DevsOn = {"ExternInheritsNoLinkage", "ThreadNoTentative", "ThreadMismatchNotDiagnosed", "InlineLateExternal", "NoUsedInternalUndefDiag"}
+  AsmFirst = FALSE
+  Kinds = {"obj", "func"}
+  DevsOn = {"ThreadNoTentative", "ThreadMismatchNotDiagnosed", "InlineLateExternal", "NoUsedInternalUndefDiag"}
   OkPrefix = FALSE
   SampleMod = 4
   Emit = "all"
